@@ -10,7 +10,7 @@ import ast
 
 from ..cfg import cfg_of, literals
 from ..dataflow import Defs, calls_in, stmt_of
-from ..index import AnalysisError, call_name, dotted, enclosing, head, norm, walk_body
+from ..index import N, AnalysisError, call_name, dotted, enclosing, head, norm, walk_body
 from ..rules import COMPOUND, kw, node_calls, own_calls, prov_at
 from ..witness import W
 
@@ -114,7 +114,7 @@ def run(chk):
     sup = lambda n: n.kind == "stmt" and not isinstance(n.stmt, COMPOUND) and any(call_name(c) == "super().do_compute" for c in own_calls(n.stmt))
     ok, _ = dcfg.every_path([dcfg.entry], [ret], sup, "n")
     chk.check(ok, "C09.R3", dc, None, "computation bypasses Plugin.do_compute (validation)", site_text="do_compute: super().do_compute on every path")
-    er = [n for n in dcfg.stmt_nodes() if isinstance(n.stmt, ast.Raise) and any("len(set(ends)) == 1" in t and p is False for t, p in dcfg.guard_facts(n))]
+    er = [n for n in dcfg.stmt_nodes() if isinstance(n.stmt, ast.Raise) and any(N("len(set(ends)) == 1") in t and p is False for t, p in dcfg.guard_facts(n))]
     chk.check(bool(er), "C09.R3", dc, None, "inputs ending at different times are accepted", site_text="do_compute: raise on incongruent input ends", nontrivial=False)
 
     chk.describe("C09.R4", "cache_beyond keeps what lies after the split (early split allowed) and raises when the starts cannot be aligned")
